@@ -61,8 +61,16 @@ func genCase(t *rapid.T) Case {
 		switch r := rapid.IntRange(0, 99).Draw(t, "opRoll"); {
 		case r < 35:
 			op = Op{Op: "push", N: rapid.SampledFrom(ids).Draw(t, "pushN")}
+			if r >= 32 {
+				// the index save of this push fails once; the caller then tags by digest
+				op.Op = "pushfault"
+			}
 		case r < 58:
 			op = Op{Op: "tag", N: rapid.SampledFrom(ids).Draw(t, "tagN"), Ref: rapid.SampledFrom(refNames).Draw(t, "ref")}
+			if r >= 55 {
+				// the index save of this Tag fails once; the caller retries
+				op.Op = "tagfault"
+			}
 			switch rapid.IntRange(0, 5).Draw(t, "annKind") {
 			case 0:
 				op.Ann = map[string]string{"k": "v" + fmt.Sprint(i)}
@@ -259,8 +267,37 @@ func runCase(c Case) (res vt.Result, fail *vt.Fail) {
 		op := ops[i]
 		when := fmt.Sprintf("at step %d (%s n=%d ref=%q)", i, op.Op, op.N, op.Ref)
 		switch op.Op {
-		case "push":
+		case "push", "pushfault":
 			if stored[op.N] {
+				continue
+			}
+			if op.Op == "pushfault" && c.AutoSave && d.IsManifest(op.N) {
+				// a directory in the way of the temporary index file makes the index
+				// save of this push fail; the blob is stored, so the caller's way to
+				// finish is to tag the manifest by its digest once the fault is gone
+				obst := filepath.Join(dir, "index.json.tmp")
+				if err := os.Mkdir(obst, 0o755); err != nil {
+					return res, vt.Failf("harness/obstruct", "%v", err)
+				}
+				perr := gen.PushNode(ctx, s, d.Nodes[op.N])
+				os.Remove(obst)
+				if perr != nil {
+					classes["push-failed-on-index-save"] = true
+					ok, err := s.Exists(ctx, d.Nodes[op.N].Desc)
+					if err != nil {
+						return res, vt.Failf("harness/exists", "%v", err)
+					}
+					if !ok {
+						// nothing was kept: an ordinary push is the retry
+						if err := gen.PushNode(ctx, s, d.Nodes[op.N]); err != nil {
+							return res, vt.Failf("C08/push-failed", "%s (retry after failed index save): %v", when, err)
+						}
+					} else if err := s.Tag(ctx, d.Nodes[op.N].Desc, d.Nodes[op.N].Desc.Digest.String()); err != nil {
+						return res, vt.Failf("C08/tag-failed", "%s (tag by digest after failed index save): %v", when, err)
+					}
+				}
+				stored[op.N] = true
+				dirty = true
 				continue
 			}
 			if err := gen.PushNode(ctx, s, d.Nodes[op.N]); err != nil {
@@ -268,12 +305,24 @@ func runCase(c Case) (res vt.Result, fail *vt.Fail) {
 			}
 			stored[op.N] = true
 			dirty = true
-		case "tag":
+		case "tag", "tagfault":
 			if !stored[op.N] {
 				continue
 			}
 			desc := d.Nodes[op.N].Desc
 			desc.Annotations = op.Ann
+			if op.Op == "tagfault" && c.AutoSave {
+				obst := filepath.Join(dir, "index.json.tmp")
+				if err := os.Mkdir(obst, 0o755); err != nil {
+					return res, vt.Failf("harness/obstruct", "%v", err)
+				}
+				terr := s.Tag(ctx, desc, op.Ref)
+				os.Remove(obst)
+				if terr != nil {
+					classes["tag-failed-on-index-save"] = true
+				}
+				// whatever it returned, the caller now repeats the Tag
+			}
 			if err := s.Tag(ctx, desc, op.Ref); err != nil {
 				return res, vt.Failf("C08/tag-failed", "%s: %v", when, err)
 			}
